@@ -223,10 +223,27 @@ func (o *out) strListDef(name string, l []string, found bool) {
 // without comments, with statements that only call logging.* removed.
 func (o *out) shapeDef(p *pkg, recv, name string) { o.shapeDefAs(p, recv, name, "") }
 
+// genProved: functions (client.ParseLine, client.Line.Text) that go2lean translated in this run and for which a
+// GenCheck obligation exists: what pins them is the kernel-checked theorem "generated definition = model", re-proved
+// against the regenerated definition on every run, so their textual fingerprint is replaced by the word "gen"
+// (a rewrite the proof absorbs raises no alarm; one it does not absorb breaks the named obligation).
+var genProved = map[string]bool{}
+
 func (o *out) shapeDefAs(p *pkg, recv, name, prefix string) {
 	def := "shape_" + prefix + name
 	if recv != "" {
 		def = "shape_" + prefix + recv + "_" + name
+	}
+	if prefix == "" {
+		q := "client." + name
+		if recv != "" {
+			q = "client." + recv + "." + name
+		}
+		if genProved[q] {
+			o.comment("| (translated by go2lean; pinned by GenCheck.gen_" + strings.ReplaceAll(strings.TrimPrefix(q, "client."), ".", "_") + ")")
+			o.strDef(def, "gen", true)
+			return
+		}
 	}
 	fd := p.fn(recv, name)
 	if fd == nil || fd.Body == nil {
@@ -372,7 +389,37 @@ func stripLogging(fd *ast.FuncDecl) *ast.FuncDecl {
 func main() {
 	repo := flag.String("repo", "/repo", "repository root")
 	outPath := flag.String("out", "/verif/lean/Goirc/Facts.lean", "output file")
+	genPath := flag.String("gen", "", "manifest written by go2lean: functions whose generated Lean definition carries a proved GenCheck obligation (their body fingerprint is replaced by the word gen)")
+	genCheck := flag.String("gencheck", "", "directory with the GenCheck/*.lean obligation files: only functions with a `theorem gen_<name>` there are exempted")
 	flag.Parse()
+	if *genPath != "" {
+		proved := map[string]bool{}
+		if ents, err := os.ReadDir(*genCheck); err == nil {
+			for _, e := range ents {
+				b, err := os.ReadFile(filepath.Join(*genCheck, e.Name()))
+				if err != nil || !strings.HasSuffix(e.Name(), ".lean") {
+					continue
+				}
+				for _, l := range strings.Split(string(b), "\n") {
+					if strings.HasPrefix(l, "theorem gen_") {
+						n := strings.Fields(strings.TrimPrefix(l, "theorem gen_"))[0]
+						// gen_Line_Text is the method Line.Text, gen_ParseLine the function ParseLine
+						if i := strings.Index(n, "_"); i > 0 && n[0] >= 'A' && n[0] <= 'Z' {
+							proved["client."+n[:i]+"."+n[i+1:]] = true
+						}
+						proved["client."+n] = true
+					}
+				}
+			}
+		}
+		if b, err := os.ReadFile(*genPath); err == nil {
+			for _, l := range strings.Split(string(b), "\n") {
+				if l = strings.TrimSpace(l); l != "" && proved[l] {
+					genProved[l] = true
+				}
+			}
+		}
+	}
 	cl := load(filepath.Join(*repo, "client"))
 	st := load(filepath.Join(*repo, "state"))
 	o := &out{}
